@@ -12,9 +12,11 @@
 (*   Chunk            one chunk of two bytes / one table byte / the from_utf8 call                *)
 (*   Finish           String::from_utf16 / collect                                                *)
 (* The declarative layer (EncOk, Dec) is evaluated as functions on the finished case.             *)
-(* Dev is the set of confirmed deviations the impl-shaped layer is run with: AllDevs = "as the    *)
-(* code is" (every disagreement with the declarative layer must then be classified by Sig),       *)
-(* {} = "as repaired" (no disagreement at all).                                                   *)
+(* Dev is the set of confirmed deviations the impl-shaped layer is run with: AsIsDevs = "as the   *)
+(* code is" (pdfdoc.c0 and utf8.bom.kept are repaired; every disagreement with the declarative    *)
+(* layer must be classified by Sig), {} = "as repaired" (no disagreement at all).  The            *)
+(* alternatives printed with a case are computed over AllDevs so that the check script can name    *)
+(* a regression of a repaired deviation by its class.                                             *)
 EXTENDS TextString, Json
 
 CONSTANTS Reps, MaxLen, RawAlphabet, RawLen, RawExtra, Dev, Emit
@@ -146,8 +148,13 @@ FunctionForm == Done => res = ImplDec(bytes, Dev)
 Refines == Done => (Expected.def => ((res = Expected) <=> (Sigs = {})))
 \* with every deviation repaired nothing is classified
 Repaired == (Dev = {}) => (Done => Sigs = {})
+\* the deviations of AllDevs (repaired ones included) this case lies in: the explanations offered to the check script
+SigsAll == CASE mode = "rt"  -> SigsRT(s, AllDevs)
+             [] mode = "u8"  -> SigsDec(bytes, AllDevs)
+             [] mode = "raw" -> SigsDec(bytes, AllDevs)
+             [] OTHER -> {}
 \* each set of deviations predicts a different result, so an explanation is unique
-Distinct == Done => \A a1, a2 \in Alternatives(bytes, Sigs) : a1.impl = a2.impl => a1 = a2
+Distinct == Done => \A a1, a2 \in Alternatives(bytes, SigsAll) : a1.impl = a2.impl => a1 = a2
 
 EmitInv ==
     (Emit /\ Done) =>
@@ -158,5 +165,5 @@ EmitInv ==
                                    br |-> br,
                                    cls |-> [i \in 1..Len(s) |-> ClassOf(s[i])],
                                    alts |-> SetToSeq({[sigs |-> SetToSeq(a.sigs), impl |-> a.impl] :
-                                                        a \in Alternatives(bytes, Sigs)})])>>)
+                                                        a \in Alternatives(bytes, SigsAll)})])>>)
 =============================================================================
